@@ -435,6 +435,21 @@ JoinMenu == {
   Agg(<<KeyK, CountStar, ItE("sum", W, "sw")>>, <<K>>, CmpE(">", W, Zero), NoH, FALSE, NoLimit, "inner"),
   Agg(<<CountStar, ItE("max", W, "hi")>>, <<>>, CmpE("<", W, Lit(IntV(5))), NoH, FALSE, NoLimit, "inner")
 }
+\* C05: a table joined with itself (table variant "selfj"): the plain names are the queried row, the table-qualified names the joined row -- in WHERE, in the
+\* projections, as aggregate arguments and group keys (a condition on t.v alone is a condition on the JOINED row)
+TK == Col("t.k")
+TV == Col("t.v")
+SelfJoinMenu == {
+  Star(NoE, FALSE, NoLimit, "inner"), Star(NoE, FALSE, NoLimit, "outer"),
+  Sel(<<P(K, ""), P(TK, "jk"), P(V, ""), P(TV, "jv")>>, CmpE(">", TV, Zero), FALSE, NoLimit, "inner"),
+  Sel(<<P(V, ""), P(TV, "")>>, CmpE("=", TV, Lit(IntV(5))), FALSE, NoLimit, "inner"),
+  Sel(<<P(TV, "jv")>>, CmpE("=", TK, Lit(A)), TRUE, NoLimit, "outer"),
+  Sel(<<P(Arith("+", V, TV), "s"), P(Col("input"), "")>>, BoolE("and", VPos, IsE(TRUE, TV, Lit(Null))), FALSE, 2, "outer"),
+  Agg(<<KeyK, CountStar, ItE("sum", TV, "s")>>, <<K>>, CmpE(">", TV, Zero), NoH, FALSE, NoLimit, "inner"),
+  Agg(<<ItE("key", TV, "jv"), CountStar, ItE("max", V, "hi")>>, <<TV>>, NoE, NoH, FALSE, NoLimit, "inner"),
+  Agg(<<CountStar, ItE("min", TK, "lo")>>, <<>>, CmpE("<", TV, Lit(IntV(5))), NoH, FALSE, NoLimit, "inner")
+}
+
 \* C05: a joined file that does not exist / an ON column the joined table lacks is an error -- with any LIMIT (LIMIT 0 included), with or without input
 BadJoinMenu == {[s EXCEPT !.join = j, !.limit = n] : s \in {Star(NoE, FALSE, NoLimit, "inner"), Sel(<<P(K, "")>>, NoE, TRUE, NoLimit, "inner"),
                                                             Agg(<<KeyK, CountStar>>, <<K>>, NoE, NoH, FALSE, NoLimit, "inner")}, j \in {"badfile", "badcol", "dirfile", "badqcol", "badqcolouter"}, n \in {NoLimit, 0, 1}}
